@@ -307,4 +307,538 @@ theorem fwd_exact {f : Nat} {t : Tracker} {slot : Nat} {ids : List (Nat × Nat)}
         · rintro ⟨h1, e, h3, h4, h5⟩
           subst e; rw [(gs1 h1).2]; exact mem_wakesOf.mpr ⟨rfl, h3, h4, h5⟩
 
+/-! ### the backward collection of `mark_skipped`, exactly -/
+
+/-- the list computed by `collect`, as a function of the per-slot states only -/
+def collectL (g : Nat → PState) (marked : Nat) : Nat → Nat → List (Nat × Nat) → List (Nat × Nat)
+  | 0, _, acc => acc
+  | n + 1, s1, acc =>
+    let s := s1 - 1
+    let acc1 := if s ≠ marked then acc ++ (g s).nfs.map (fun h => (s, h)) else acc
+    if ¬ (g s).skip then acc1 else collectL g marked n s (acc1 ++ (g s).ready)
+
+theorem collect_eq (marked n : Nat) (t : Tracker) (s1 : Nat) (acc : List (Nat × Nat)) :
+    (collect marked n t s1 acc).1.root = t.root ∧ (collect marked n t s1 acc).1.top = t.top ∧
+    (∀ x, get (collect marked n t s1 acc).1 x = get t x) ∧
+    (collect marked n t s1 acc).2 = collectL (get t) marked n s1 acc := by
+  induction n generalizing t s1 acc with
+  | zero => exact ⟨rfl, rfl, fun _ => rfl, rfl⟩
+  | succ n ih =>
+    have hg : get (touch t (s1 - 1)) = get t := funext (get_touch t (s1 - 1))
+    simp only [collect, collectL, hg]
+    split
+    · exact ⟨rfl, rfl, fun x => get_touch _ _ _, rfl⟩
+    · obtain ⟨h1, h2, h3, h4⟩ := ih (touch t (s1 - 1)) (s1 - 1)
+        ((if s1 - 1 ≠ marked then acc ++ List.map (fun h => (s1 - 1, h)) (get t (s1 - 1)).nfs else acc) ++ (get t (s1 - 1)).ready)
+      refine ⟨h1, h2, fun x => by rw [h3, get_touch], ?_⟩
+      rw [h4, hg]
+
+theorem mem_collectL {g : Nat → PState} {m n s1 : Nat} {acc : List (Nat × Nat)} {p : Nat × Nat} (hn : n ≤ s1) :
+    p ∈ collectL g m n s1 acc ↔ p ∈ acc ∨ ∃ u, u < s1 ∧ s1 ≤ u + n ∧ (∀ v, u < v → v < s1 → (g v).skip = true) ∧
+      ((u ≠ m ∧ p.1 = u ∧ p.2 ∈ (g u).nfs) ∨ ((g u).skip = true ∧ p ∈ (g u).ready)) := by
+  induction n generalizing s1 acc with
+  | zero =>
+    simp only [collectL]
+    constructor
+    · exact Or.inl
+    · rintro (h | ⟨u, h1, h2, _⟩)
+      · exact h
+      · omega
+  | succ n ih =>
+    obtain ⟨s, rfl⟩ : ∃ s, s1 = s + 1 := ⟨s1 - 1, by omega⟩
+    simp only [collectL, Nat.add_sub_cancel]
+    have hacc1 : p ∈ (if s ≠ m then acc ++ (g s).nfs.map (fun h => (s, h)) else acc) ↔
+        p ∈ acc ∨ (s ≠ m ∧ p.1 = s ∧ p.2 ∈ (g s).nfs) := by
+      split
+      · rename_i hne
+        rw [List.mem_append, List.mem_map]
+        constructor
+        · rintro (h | ⟨h, hh, e⟩)
+          · exact Or.inl h
+          · subst e; exact Or.inr ⟨hne, rfl, hh⟩
+        · rintro (h | ⟨_, e, hh⟩)
+          · exact Or.inl h
+          · exact Or.inr ⟨p.2, hh, by rw [← e]⟩
+      · rename_i he
+        constructor
+        · exact Or.inl
+        · rintro (h | ⟨hne, _⟩)
+          · exact h
+          · exact absurd hne he
+    by_cases hsk : (g s).skip = true
+    · rw [if_neg (by simpa using hsk), ih (by omega), List.mem_append, hacc1]
+      constructor
+      · rintro (((h | h) | h) | ⟨u, h1, h2, h3, h4⟩)
+        · exact Or.inl h
+        · exact Or.inr ⟨s, by omega, by omega, fun v _ _ => by omega, Or.inl h⟩
+        · exact Or.inr ⟨s, by omega, by omega, fun v _ _ => by omega, Or.inr ⟨hsk, h⟩⟩
+        · refine Or.inr ⟨u, by omega, by omega, fun v hv1 hv2 => ?_, h4⟩
+          by_cases e : v = s
+          · subst e; exact hsk
+          · exact h3 v hv1 (by omega)
+      · rintro (h | ⟨u, h1, h2, h3, h4⟩)
+        · exact Or.inl (Or.inl (Or.inl h))
+        · by_cases e : u = s
+          · subst e
+            rcases h4 with h4 | h4
+            · exact Or.inl (Or.inl (Or.inr h4))
+            · exact Or.inl (Or.inr h4.2)
+          · exact Or.inr ⟨u, by omega, by omega, fun v a b => h3 v a (by omega), h4⟩
+    · rw [if_pos hsk, hacc1]
+      constructor
+      · rintro (h | h)
+        · exact Or.inl h
+        · exact Or.inr ⟨s, by omega, by omega, fun v _ _ => by omega, Or.inl h⟩
+      · rintro (h | ⟨u, h1, h2, h3, h4⟩)
+        · exact Or.inl h
+        · by_cases e : u = s
+          · subst e
+            rcases h4 with h4 | h4
+            · exact Or.inr h4
+            · exact absurd h4.1 hsk
+          · exact absurd (h3 s (by omega) (by omega)) hsk
+
+theorem nodup_collectL {g : Nat → PState} {m n s1 : Nat} {acc : List (Nat × Nat)} (hn : n ≤ s1)
+    (hacc : acc.Nodup) (hlow : ∀ p ∈ acc, s1 ≤ p.1)
+    (hnfs : ∀ u, (g u).nfs.Nodup) (hr : ∀ u, (g u).ready.Nodup)
+    (hrl : ∀ u p, u < s1 → p ∈ (g u).ready → p.1 < u)
+    (hin : ∀ u, s1 < u + n → u < s1 → (g u).ready = []) :
+    (collectL g m n s1 acc).Nodup := by
+  induction n generalizing s1 acc with
+  | zero => exact hacc
+  | succ n ih =>
+    obtain ⟨s, rfl⟩ : ∃ s, s1 = s + 1 := ⟨s1 - 1, by omega⟩
+    simp only [collectL, Nat.add_sub_cancel]
+    have hacc1 : (if s ≠ m then acc ++ (g s).nfs.map (fun h => (s, h)) else acc).Nodup ∧
+        ∀ p ∈ (if s ≠ m then acc ++ (g s).nfs.map (fun h => (s, h)) else acc), s ≤ p.1 := by
+      split
+      · refine ⟨?_, ?_⟩
+        · rw [List.nodup_append]
+          refine ⟨hacc, nodup_map_inj (fun a b h => by cases h; rfl) (hnfs s), ?_⟩
+          intro a ha b hb e
+          subst e
+          have := hlow a ha
+          obtain ⟨_, _, e⟩ := List.mem_map.mp hb
+          rw [← e] at this; simp only at this; omega
+        · intro p hp
+          rcases List.mem_append.mp hp with hp | hp
+          · have := hlow p hp; omega
+          · obtain ⟨_, _, e⟩ := List.mem_map.mp hp
+            rw [← e]; exact Nat.le_refl _
+      · exact ⟨hacc, fun p hp => by have := hlow p hp; omega⟩
+    split
+    · exact hacc1.1
+    · cases n with
+      | zero =>
+        simp only [collectL]
+        rw [List.nodup_append]
+        refine ⟨hacc1.1, hr s, ?_⟩
+        intro a ha b hb e
+        subst e
+        have h1 := hacc1.2 a ha
+        have h2 := hrl s a (by omega) hb
+        omega
+      | succ n =>
+        have he : (g s).ready = [] := hin s (by omega) (by omega)
+        rw [he, List.append_nil]
+        exact ih (by omega) hacc1.1 hacc1.2 (fun u p hu => hrl u p (by omega))
+          (fun u h1 h2 => hin u (by omega) (by omega))
+
+/-! ### ghost history, invariant -/
+
+/-- Ghost history of a run: the current root, the notar-fallback marks and the skip marks the tracker *accepted*
+    (a mark for a slot below the root at the time of the call is ignored by the code and is not recorded),
+    the slots used as prune roots (latest first) and whether the prune roots were monotone so far. -/
+structure Hist where
+  root : Nat := 0
+  nf : List (Nat × Nat) := [(0, 0)]
+  sk : List Nat := []
+  roots : List Nat := []
+  mono : Bool := true
+
+def Hist.addNf (h : Hist) (b : Nat × Nat) : Hist := { h with nf := b :: h.nf }
+def Hist.addSk (h : Hist) (s : Nat) : Hist := { h with sk := s :: h.sk }
+/-- a notar-fallback mark arrives -/
+def Hist.nfMark (h : Hist) (b : Nat × Nat) : Hist := if b.1 < h.root then h else h.addNf b
+/-- a skip mark arrives -/
+def Hist.skMark (h : Hist) (s : Nat) : Hist := if s < h.root then h else h.addSk s
+/-- `prune r` -/
+def Hist.pruneTo (h : Hist) (r : Nat) : Hist :=
+  { h with root := r, roots := r :: h.roots, mono := h.mono && decide (h.root ≤ r) }
+
+/-- the parent-ready condition w.r.t. the history: `b` (in a slot before `s`) is marked notar-fallback (genesis is, from
+    the start) and every slot strictly between `b`'s slot and `s` is skip-marked -/
+def Connected (h : Hist) (s : Nat) (b : Nat × Nat) : Prop :=
+  b.1 < s ∧ b ∈ h.nf ∧ ∀ u, b.1 < u → u < s → u ∈ h.sk
+
+theorem connected_addNf {h : Hist} {b : Nat × Nat} {s : Nat} {p : Nat × Nat} :
+    Connected (h.addNf b) s p ↔ Connected h s p ∨ (p = b ∧ b.1 < s ∧ ∀ u, b.1 < u → u < s → u ∈ h.sk) := by
+  unfold Connected Hist.addNf
+  simp only [List.mem_cons]
+  constructor
+  · rintro ⟨h1, (e | h2), h3⟩
+    · subst e; exact Or.inr ⟨rfl, h1, h3⟩
+    · exact Or.inl ⟨h1, h2, h3⟩
+  · rintro (⟨h1, h2, h3⟩ | ⟨e, h1, h3⟩)
+    · exact ⟨h1, Or.inr h2, h3⟩
+    · subst e; exact ⟨h1, Or.inl rfl, h3⟩
+
+theorem connected_addSk {h : Hist} {ms : Nat} {s : Nat} {p : Nat × Nat} :
+    Connected (h.addSk ms) s p ↔ Connected h s p ∨
+      (p.1 < ms ∧ ms < s ∧ Connected h ms p ∧ ∀ u, ms < u → u < s → u ∈ h.sk) := by
+  unfold Connected Hist.addSk
+  simp only [List.mem_cons]
+  constructor
+  · rintro ⟨h1, h2, h3⟩
+    by_cases hc : p.1 < ms ∧ ms < s
+    · refine Or.inr ⟨hc.1, hc.2, ⟨hc.1, h2, fun u a b => ?_⟩, fun u a b => ?_⟩
+      · rcases h3 u a (by omega) with e | h
+        · omega
+        · exact h
+      · rcases h3 u (by omega) b with e | h
+        · omega
+        · exact h
+    · refine Or.inl ⟨h1, h2, fun u a b => ?_⟩
+      rcases h3 u a b with e | h
+      · omega
+      · exact h
+  · rintro (⟨h1, h2, h3⟩ | ⟨h1, h2, ⟨_, h4, h5⟩, h6⟩)
+    · exact ⟨h1, h2, fun u a b => Or.inr (h3 u a b)⟩
+    · refine ⟨by omega, h4, fun u a b => ?_⟩
+      by_cases e : u = ms
+      · exact Or.inl e
+      · by_cases hl : u < ms
+        · exact Or.inr (h5 u a hl)
+        · exact Or.inr (h6 u (by omega) b)
+
+/-- **The invariant**: at and above the root the tracker's per-slot state is exactly the accepted history, and each
+    ready list is exactly the set of connected parents (`ready` *is* `ready_iff`); `top` bounds the skip marks (fuel
+    of the forward loops); lists are duplicate-free; a registered waiter means no parent is ready yet. -/
+structure Inv (h : Hist) (t : Tracker) : Prop where
+  root : t.root = h.root
+  skip : ∀ u, h.root ≤ u → ((get t u).skip = true ↔ u ∈ h.sk)
+  nfs : ∀ u x, h.root ≤ u → (x ∈ (get t u).nfs ↔ (u, x) ∈ h.nf)
+  ready : ∀ s b, h.root ≤ s → (b ∈ (get t s).ready ↔ isWindowStart s = true ∧ Connected h s b)
+  top : ∀ u ∈ h.sk, u ≤ t.top
+  nfsNodup : ∀ u, (get t u).nfs.Nodup
+  readyNodup : ∀ s, (get t s).ready.Nodup
+  waiter : ∀ s, (get t s).waiter = true → (get t s).ready = []
+  low : ∀ u, u < h.root → (get t u).ready = []
+
+/-- What one (possibly composite) mark operation does to ready lists, announcements and waiters. -/
+structure Step (t t' : Tracker) (ann : List (Nat × (Nat × Nat))) (w : List Wake) : Prop where
+  root : t'.root = t.root
+  /-- ready lists are only appended to -/
+  ext : ∀ s, ∃ l, (get t' s).ready = (get t s).ready ++ l
+  annNodup : ann.Nodup
+  /-- every announced pair is for a slot at or above the root, newly in the ready list -/
+  annNew : ∀ s b, (s, b) ∈ ann → t.root ≤ s ∧ b ∈ (get t' s).ready ∧ b ∉ (get t s).ready
+  /-- a waiter stays registered exactly while no parent is ready -/
+  waiter : ∀ s, (get t' s).waiter = true ↔ (get t s).waiter = true ∧ (get t' s).ready = []
+  /-- a waiter is woken exactly by the first parent that becomes ready -/
+  wake : ∀ s b, (s, b) ∈ w ↔ (get t s).waiter = true ∧ (get t' s).ready.head? = some b
+
+theorem Step.of_same {t t' : Tracker} (hr : t'.root = t.root) (hg : ∀ x, get t' x = get t x)
+    (hwi : ∀ s, (get t s).waiter = true → (get t s).ready = []) : Step t t' [] [] := by
+  refine ⟨hr, fun s => ⟨[], by rw [hg]; simp⟩, List.nodup_nil, fun _ _ h => (by cases h), ?_, ?_⟩
+  · intro s; rw [hg]
+    exact ⟨fun h => ⟨h, hwi s h⟩, fun h => h.1⟩
+  · intro s b; rw [hg]
+    constructor
+    · intro h; cases h
+    · rintro ⟨h1, h2⟩; rw [hwi s h1] at h2; cases h2
+
+theorem Step.trans {a b c : Tracker} {l1 l2 : List (Nat × (Nat × Nat))} {w1 w2 : List Wake}
+    (h1 : Step a b l1 w1) (h2 : Step b c l2 w2) : Step a c (l1 ++ l2) (w1 ++ w2) := by
+  refine ⟨h2.root.trans h1.root, ?_, ?_, ?_, ?_, ?_⟩
+  · intro s
+    obtain ⟨x, hx⟩ := h1.ext s
+    obtain ⟨y, hy⟩ := h2.ext s
+    exact ⟨x ++ y, by rw [hy, hx, List.append_assoc]⟩
+  · rw [List.nodup_append]
+    refine ⟨h1.annNodup, h2.annNodup, ?_⟩
+    intro x hx y hy e
+    subst e
+    obtain ⟨_, m1, _⟩ := h1.annNew x.1 x.2 hx
+    obtain ⟨_, _, m2⟩ := h2.annNew x.1 x.2 hy
+    exact m2 m1
+  · intro s p hp
+    obtain ⟨y, hy⟩ := h2.ext s
+    obtain ⟨x, hx⟩ := h1.ext s
+    rcases List.mem_append.mp hp with hp | hp
+    · obtain ⟨r, m1, m2⟩ := h1.annNew s p hp
+      exact ⟨r, by rw [hy]; exact List.mem_append_left _ m1, m2⟩
+    · obtain ⟨r, m1, m2⟩ := h2.annNew s p hp
+      exact ⟨by rw [← h1.root]; exact r, m1, fun hh => m2 (by rw [hx]; exact List.mem_append_left _ hh)⟩
+  · intro s
+    obtain ⟨y, hy⟩ := h2.ext s
+    rw [h2.waiter, h1.waiter]
+    constructor
+    · rintro ⟨⟨h, _⟩, h'⟩; exact ⟨h, h'⟩
+    · rintro ⟨h, h'⟩
+      refine ⟨⟨h, ?_⟩, h'⟩
+      rw [hy] at h'
+      exact (List.append_eq_nil_iff.mp h').1
+  · intro s p
+    obtain ⟨y, hy⟩ := h2.ext s
+    rw [List.mem_append, h1.wake, h2.wake, h1.waiter]
+    constructor
+    · rintro (⟨h, hh⟩ | ⟨⟨h, _⟩, hh⟩)
+      · refine ⟨h, ?_⟩
+        rw [hy]
+        cases hb : (get b s).ready with
+        | nil => rw [hb] at hh; cases hh
+        | cons z zs => rw [hb] at hh; exact hh
+      · exact ⟨h, hh⟩
+    · rintro ⟨h, hh⟩
+      cases hb : (get b s).ready with
+      | nil => exact Or.inr ⟨⟨h, rfl⟩, hh⟩
+      | cons z zs =>
+        left
+        refine ⟨h, ?_⟩
+        rw [hy, hb] at hh
+        exact hh
+
+/-- a step that appends the new, distinct `ids` to the ready lists of the slots in `P` -/
+theorem step_of_append {t t' : Tracker} {ids : List (Nat × Nat)} {P : Nat → Prop}
+    {new : List (Nat × (Nat × Nat))} {w : List Wake}
+    (hroot : t'.root = t.root)
+    (hA : ∀ x, P x → (get t' x).ready = (get t x).ready ++ ids ∧
+      ((get t' x).waiter = true ↔ (get t x).waiter = true ∧ (ids = [] ∨ (get t x).ready ≠ [])))
+    (hB : ∀ x, ¬ P x → (get t' x).ready = (get t x).ready ∧ (get t' x).waiter = (get t x).waiter)
+    (hnew : ∀ x b, (x, b) ∈ new ↔ P x ∧ b ∈ ids) (hnd : new.Nodup)
+    (hw : ∀ x b, (x, b) ∈ w ↔ P x ∧ (get t x).waiter = true ∧ (get t x).ready = [] ∧ ids.head? = some b)
+    (hdis : ∀ x, P x → ∀ id ∈ ids, id ∉ (get t x).ready)
+    (hPr : ∀ x, P x → t.root ≤ x)
+    (hwi : ∀ s, (get t s).waiter = true → (get t s).ready = []) :
+    Step t t' new w ∧ ∀ s p, p ∈ (get t' s).ready → p ∉ (get t s).ready → (s, p) ∈ new := by
+  refine ⟨⟨hroot, ?_, hnd, ?_, ?_, ?_⟩, ?_⟩
+  · intro s
+    by_cases hp : P s
+    · exact ⟨ids, (hA s hp).1⟩
+    · exact ⟨[], by rw [(hB s hp).1]; simp⟩
+  · intro s b hm
+    obtain ⟨hp, hb⟩ := (hnew s b).mp hm
+    exact ⟨hPr s hp, by rw [(hA s hp).1]; exact List.mem_append_right _ hb, hdis s hp b hb⟩
+  · intro s
+    by_cases hp : P s
+    · rw [(hA s hp).2, (hA s hp).1]
+      constructor
+      · rintro ⟨h1, h2⟩
+        have := hwi s h1
+        rcases h2 with h2 | h2
+        · exact ⟨h1, by rw [this, h2]; rfl⟩
+        · exact absurd this h2
+      · rintro ⟨h1, h2⟩
+        exact ⟨h1, Or.inl (List.append_eq_nil_iff.mp h2).2⟩
+    · rw [(hB s hp).2, (hB s hp).1]
+      exact ⟨fun h => ⟨h, hwi s h⟩, fun h => h.1⟩
+  · intro s b
+    rw [hw]
+    by_cases hp : P s
+    · rw [(hA s hp).1]
+      constructor
+      · rintro ⟨_, h1, h2, h3⟩
+        exact ⟨h1, by rw [h2]; exact h3⟩
+      · rintro ⟨h1, h2⟩
+        rw [hwi s h1] at h2
+        exact ⟨hp, h1, hwi s h1, h2⟩
+    · rw [(hB s hp).1]
+      constructor
+      · rintro ⟨h, _⟩; exact absurd h hp
+      · rintro ⟨h1, h2⟩
+        rw [hwi s h1] at h2; cases h2
+  · intro s p h1 h2
+    by_cases hp : P s
+    · rw [(hA s hp).1] at h1
+      rcases List.mem_append.mp h1 with h | h
+      · exact absurd h h2
+      · exact (hnew s p).mpr ⟨hp, h⟩
+    · rw [(hB s hp).1] at h1; exact absurd h1 h2
+
+/-! ### preservation of the invariant -/
+
+theorem nodup_single {α : Type} (a : α) : [a].Nodup := List.nodup_cons.mpr ⟨by simp, List.nodup_nil⟩
+
+theorem vis_iff_hist {h : Hist} {t : Tracker} (inv : Inv h t) {a : Nat} (ha : h.root ≤ a) (x : Nat) :
+    Vis t a x ↔ a ≤ x ∧ ∀ u, a ≤ u → u < x → u ∈ h.sk := by
+  unfold Vis
+  constructor
+  · rintro ⟨h1, h2⟩; exact ⟨h1, fun u hu hx => (inv.skip u (by omega)).mp (h2 u hu hx)⟩
+  · rintro ⟨h1, h2⟩; exact ⟨h1, fun u hu hx => (inv.skip u (by omega)).mpr (h2 u hu hx)⟩
+
+theorem Inv.of_same {h h' : Hist} {t t' : Tracker} (inv : Inv h t) (hr : t'.root = t.root) (htop : t.top ≤ t'.top)
+    (hg : ∀ x, get t' x = get t x) (hroot : h'.root = h.root) (hnf : ∀ x, x ∈ h'.nf ↔ x ∈ h.nf)
+    (hsk : ∀ x, x ∈ h'.sk ↔ x ∈ h.sk) : Inv h' t' := by
+  have hc : ∀ s b, Connected h' s b ↔ Connected h s b := by
+    intro s b; unfold Connected; rw [hnf]
+    constructor
+    · rintro ⟨a, b, c⟩; exact ⟨a, b, fun u x y => (hsk u).mp (c u x y)⟩
+    · rintro ⟨a, b, c⟩; exact ⟨a, b, fun u x y => (hsk u).mpr (c u x y)⟩
+  refine ⟨by rw [hr, hroot, inv.root], ?_, ?_, ?_, ?_, ?_, ?_, ?_, ?_⟩
+  · intro u hu; rw [hg, hsk]; exact inv.skip u (by omega)
+  · intro u x hu; rw [hg, hnf]; exact inv.nfs u x (by omega)
+  · intro s b hs; rw [hg, hc]; exact inv.ready s b (by omega)
+  · intro u hu; exact Nat.le_trans (inv.top u ((hsk u).mp hu)) htop
+  · intro u; rw [hg]; exact inv.nfsNodup u
+  · intro u; rw [hg]; exact inv.readyNodup u
+  · intro u; rw [hg]; exact inv.waiter u
+  · intro u hu; rw [hg]; exact inv.low u (by omega)
+
+/-- **`mark_notar_fallback` preserves the invariant**, never panics, announces exactly the newly ready pairs. -/
+theorem nf_step {h : Hist} {t : Tracker} (inv : Inv h t) (b : Nat × Nat) :
+    ∃ t' ann w, markNotarFallback t b = some (t', ann, w) ∧ Inv (h.nfMark b) t' ∧ Step t t' ann w ∧
+      (∀ s p, p ∈ (get t' s).ready → p ∉ (get t s).ready → (s, p) ∈ ann) := by
+  unfold markNotarFallback Hist.nfMark
+  rw [inv.root]
+  by_cases hlt : b.1 < h.root
+  · rw [if_pos hlt, if_pos hlt]
+    exact ⟨t, [], [], rfl, inv, Step.of_same rfl (fun _ => rfl) inv.waiter, fun s p h1 h2 => absurd h1 h2⟩
+  · rw [if_neg hlt, if_neg hlt]
+    simp only
+    by_cases hc : (get t b.1).nfs.contains b.2 = true
+    · rw [if_pos hc]
+      have hb : b ∈ h.nf := (inv.nfs b.1 b.2 (by omega)).mp (List.contains_iff_mem.mp hc)
+      refine ⟨_, _, _, rfl, ?_, Step.of_same rfl (get_touch t b.1) inv.waiter, ?_⟩
+      · refine inv.of_same rfl (Nat.le_refl _) (get_touch t b.1) rfl ?_ (fun _ => Iff.rfl)
+        intro x
+        simp only [Hist.addNf, List.mem_cons]
+        exact ⟨fun hh => hh.elim (fun e => e ▸ hb) id, Or.inr⟩
+      · intro s p h1 h2; rw [get_touch] at h1; exact absurd h1 h2
+    · rw [if_neg hc]
+      have hnew : b.2 ∉ (get t b.1).nfs := fun hm => hc (List.contains_iff_mem.mpr hm)
+      have hbn : b ∉ h.nf := fun hm => hnew ((inv.nfs b.1 b.2 (by omega)).mpr hm)
+      generalize ht1 : put t b.1 { get t b.1 with nfs := (get t b.1).nfs ++ [b.2] } = t1
+      have g1s : get t1 b.1 = { get t b.1 with nfs := (get t b.1).nfs ++ [b.2] } := by
+        rw [← ht1, get_put_same]
+      have g1o : ∀ x, x ≠ b.1 → get t1 x = get t x := fun x hx => by rw [← ht1, get_put_other _ _ hx]
+      have r1 : t1.root = t.root := by rw [← ht1]; rfl
+      have tp1 : t1.top = t.top := by rw [← ht1]; rfl
+      have hsk1 : ∀ u, (get t1 u).skip = (get t u).skip := by
+        intro u; by_cases e : u = b.1
+        · subst e; rw [g1s]
+        · rw [g1o u e]
+      have hrd1 : ∀ u, (get t1 u).ready = (get t u).ready := by
+        intro u; by_cases e : u = b.1
+        · subst e; rw [g1s]
+        · rw [g1o u e]
+      have hwt1 : ∀ u, (get t1 u).waiter = (get t u).waiter := by
+        intro u; by_cases e : u = b.1
+        · subst e; rw [g1s]
+        · rw [g1o u e]
+      have hdis : ∀ x, b.1 + 1 ≤ x → ∀ id ∈ [b], id ∉ (get t1 x).ready := by
+        intro x hx id hid hm
+        simp only [List.mem_singleton] at hid
+        subst hid
+        rw [hrd1] at hm
+        exact hbn ((inv.ready x id (by omega)).mp hm).2.2.1
+      obtain ⟨t', new, w, e, r, tp, ga, gb, hn, hnd, hw⟩ :=
+        @fwd_exact (t1.top + 1 - b.1 + 1) t1 (b.1 + 1) [b] (by omega) (by omega)
+          (fun u hu hs => by
+            rw [hsk1] at hs; rw [tp1]
+            exact inv.top u ((inv.skip u (by omega)).mp hs))
+          (nodup_single b) hdis
+      have hvis : ∀ x, Vis t1 (b.1 + 1) x ↔ b.1 < x ∧ ∀ u, b.1 < u → u < x → u ∈ h.sk := by
+        intro x
+        rw [vis_congr (fun u _ => hsk1 u), vis_iff_hist inv (by omega)]
+        exact ⟨fun ⟨a, c⟩ => ⟨a, fun u x y => c u x y⟩, fun ⟨a, c⟩ => ⟨a, fun u x y => c u x y⟩⟩
+      have hA : ∀ x, (isWindowStart x = true ∧ Vis t1 (b.1 + 1) x) →
+          (get t' x).ready = (get t x).ready ++ [b] ∧
+          ((get t' x).waiter = true ↔ (get t x).waiter = true ∧ ([b] = [] ∨ (get t x).ready ≠ [])) := by
+        intro x hp
+        rw [ga x hp.1 hp.2, addSt_ready, addSt_waiter, hrd1, hwt1]
+        exact ⟨rfl, Iff.rfl⟩
+      have hB : ∀ x, ¬ (isWindowStart x = true ∧ Vis t1 (b.1 + 1) x) →
+          (get t' x).ready = (get t x).ready ∧ (get t' x).waiter = (get t x).waiter := by
+        intro x hp
+        rw [gb x hp, hrd1, hwt1]
+        exact ⟨rfl, rfl⟩
+      have hst := @step_of_append t t' [b] (fun x => isWindowStart x = true ∧ Vis t1 (b.1 + 1) x) new w
+        (by rw [r, r1]) hA hB (fun x p => by rw [hn]; exact ⟨fun ⟨a, c, d⟩ => ⟨⟨a, c⟩, d⟩, fun ⟨⟨a, c⟩, d⟩ => ⟨a, c, d⟩⟩) hnd
+        (fun x p => by
+          rw [hw, hrd1, hwt1]
+          exact ⟨fun ⟨a, c, d⟩ => ⟨⟨a, c⟩, d⟩, fun ⟨⟨a, c⟩, d⟩ => ⟨a, c, d⟩⟩)
+        (fun x hp id hid => by rw [← hrd1]; exact hdis x hp.2.1 id hid)
+        (fun x hp => by rw [inv.root]; have := hp.2.1; omega) inv.waiter
+      have hskip' : ∀ u, (get t' u).skip = (get t u).skip := by
+        intro u
+        by_cases hp : isWindowStart u = true ∧ Vis t1 (b.1 + 1) u
+        · rw [ga u hp.1 hp.2, addSt_skip, hsk1]
+        · rw [gb u hp, hsk1]
+      have hnfs' : ∀ u, (get t' u).nfs = (get t1 u).nfs := by
+        intro u
+        by_cases hp : isWindowStart u = true ∧ Vis t1 (b.1 + 1) u
+        · rw [ga u hp.1 hp.2, addSt_nfs]
+        · rw [gb u hp]
+      refine ⟨t', new, w, e, ?_, hst.1, hst.2⟩
+      refine ⟨by rw [r, r1]; exact inv.root, ?_, ?_, ?_, ?_, ?_, ?_, ?_, ?_⟩
+      · intro u hu; rw [hskip']; exact inv.skip u hu
+      · intro u x hu
+        rw [hnfs']
+        show _ ↔ (u, x) ∈ b :: h.nf
+        by_cases e : u = b.1
+        · subst e
+          rw [g1s]
+          show x ∈ (get t b.1).nfs ++ [b.2] ↔ _
+          rw [List.mem_append, List.mem_singleton, List.mem_cons, inv.nfs b.1 x hu]
+          constructor
+          · rintro (hh | hh)
+            · exact Or.inr hh
+            · subst hh; exact Or.inl rfl
+          · rintro (hh | hh)
+            · exact Or.inr (congrArg Prod.snd hh)
+            · exact Or.inl hh
+        · rw [g1o u e, inv.nfs u x hu, List.mem_cons]
+          constructor
+          · exact Or.inr
+          · rintro (hh | hh)
+            · exact absurd (by rw [← hh]) e
+            · exact hh
+      · intro s p hs
+        rw [connected_addNf]
+        have hs' : h.root ≤ s := hs
+        by_cases hp : isWindowStart s = true ∧ Vis t1 (b.1 + 1) s
+        · rw [(hA s hp).1, List.mem_append, List.mem_singleton, inv.ready s p hs']
+          constructor
+          · rintro (⟨a, c⟩ | e)
+            · exact ⟨a, Or.inl c⟩
+            · exact ⟨hp.1, Or.inr ⟨e, ((hvis s).mp hp.2).1, ((hvis s).mp hp.2).2⟩⟩
+          · rintro ⟨a, (c | ⟨e, _⟩)⟩
+            · exact Or.inl ⟨a, c⟩
+            · exact Or.inr e
+        · rw [(hB s hp).1, inv.ready s p hs']
+          constructor
+          · rintro ⟨a, c⟩; exact ⟨a, Or.inl c⟩
+          · rintro ⟨a, (c | ⟨_, c, d⟩)⟩
+            · exact ⟨a, c⟩
+            · exact absurd ⟨a, (hvis s).mpr ⟨c, d⟩⟩ hp
+      · intro u hu; rw [tp, tp1]; exact inv.top u hu
+      · intro u
+        rw [hnfs']
+        by_cases e : u = b.1
+        · subst e
+          rw [g1s]
+          show ((get t b.1).nfs ++ [b.2]).Nodup
+          rw [List.nodup_append]
+          refine ⟨inv.nfsNodup _, nodup_single _, ?_⟩
+          intro x hx y hy e
+          simp only [List.mem_singleton] at hy
+          subst hy; subst e; exact hnew hx
+        · rw [g1o u e]; exact inv.nfsNodup u
+      · intro s
+        by_cases hp : isWindowStart s = true ∧ Vis t1 (b.1 + 1) s
+        · rw [(hA s hp).1, List.nodup_append]
+          refine ⟨inv.readyNodup s, nodup_single _, ?_⟩
+          intro x hx y hy e
+          subst e
+          rw [← hrd1] at hx
+          exact hdis s hp.2.1 x hy hx
+        · rw [(hB s hp).1]; exact inv.readyNodup s
+      · intro s hs; exact ((hst.1.waiter s).mp hs).2
+      · intro u hu
+        have hu' : u < h.root := hu
+        have hp : ¬ (isWindowStart u = true ∧ Vis t1 (b.1 + 1) u) := by
+          intro hp; have := hp.2.1; omega
+        rw [(hB u hp).1]; exact inv.low u hu'
+
 end AgModel.ParentReady
